@@ -8,7 +8,12 @@
 N="$1"; SEED="${2:-1}"; OUT="${3:-/tmp/mut/results.jsonl}"
 export OMP_NUM_THREADS=1 OPENBLAS_NUM_THREADS=1 MKL_NUM_THREADS=1
 mkdir -p /tmp/mut
-/venv/bin/python /verif/tools/mutate.py list /repo/spatialmath --seed "$SEED" --max "$N" 2>/dev/null | grep '^{' > /tmp/mut/list_$SEED.jsonl
+# FUNC=<regex>: only mutants of functions whose qualified name matches (all of them, shuffled, then the first N)
+if [ -n "$FUNC" ]; then
+  /venv/bin/python /verif/tools/mutate.py list /repo/spatialmath --seed "$SEED" 2>/dev/null | grep '^{' | grep -E "\"func\": \"($FUNC)\"" | head -n "$N" > /tmp/mut/list_$SEED.jsonl
+else
+  /venv/bin/python /verif/tools/mutate.py list /repo/spatialmath --seed "$SEED" --max "$N" 2>/dev/null | grep '^{' > /tmp/mut/list_$SEED.jsonl
+fi
 awk '$3<8 {print $1}' /tmp/mut/demo_times.txt > /tmp/mut/fast_demos.txt
 i=0
 while IFS= read -r spec; do
